@@ -17,7 +17,7 @@ var trackedTypes = map[string]bool{
 	"starlark.Dict": true, "starlark.Set": true, "starlark.Function": true, "starlark.Builtin": true,
 	"starlark.cell": true, "starlark.Module": true,
 	"starlarkstruct.Struct": true, "starlarkstruct.Module": true,
-	"internal/compile.Program": true, "internal/compile.Funcode": true,
+	"internal/compile.Program": true, "starlark.Program": true, "internal/compile.Funcode": true,
 	"lib/proto.Message": true, "lib/proto.RepeatedField": true, "lib/proto.MapField": true,
 }
 
@@ -670,8 +670,8 @@ func findCheckMutableGuard(fn *ssa.Function, instr ssa.Instruction, roots []base
 // root.frozen (or *root.frozen for lib/proto's shared flag)? For closures the
 // guard may be at the closure's creation site.
 func frozenGuard(fn *ssa.Function, b *ssa.BasicBlock, roots []base, at ssa.Instruction) string {
-	for _, pc := range pathConds(b) {
-		cond, neg := stripNot(pc.If.Cond)
+	for _, pf := range pathFacts(b) {
+		cond, neg := pf.Cond, false
 		ld, ok := cond.(*ssa.UnOp)
 		if !ok || ld.Op != token.MUL {
 			continue
@@ -681,7 +681,7 @@ func frozenGuard(fn *ssa.Function, b *ssa.BasicBlock, roots []base, at ssa.Instr
 			continue
 		}
 		// frozen is false on this path?
-		frozenTrue := pc.Branch != neg
+		frozenTrue := pf.Truth != neg
 		if frozenTrue {
 			continue
 		}
